@@ -40,7 +40,8 @@ class Pattern(Leaf):
         _ = lean
         pat = self.pattern or ""
         # multiline patterns are OK
-        pat = trim(pat)
+        if '\n' in pat:
+            pat = trim(pat)
         if '/' in pat:
             newpat = pat.replace('"', r'\"')
             regex = f'?"{newpat}"'
